@@ -5,10 +5,12 @@ from ..common import run_go, run_lean, f2bits
 import struct
 
 MODULE = "Genql.Properties.C15"
-LEAN_TARGETS = [MODULE]
+FACTS = True
+LEAN_TARGETS = [MODULE, "Genql.Obligations.C15"]
 THEOREMS = ["Genql.C15." + t for t in [
     "cmp_range", "cmp_num_math", "cmp_num_rat", "cmp_int_math", "cmp_str_lex", "cmp_num_str_text", "cmp_str_num_text",
-    "cmp_refl", "cmp_antisymm", "cmp_trans_num", "cmp_trans_int", "cmp_trans_str", "cmp_num_kind_irrelevant"]]
+    "cmp_refl", "cmp_antisymm", "cmp_trans_num", "cmp_trans_int", "cmp_trans_str", "cmp_num_kind_irrelevant"]] + \
+    ["Genql.Obligations.C15.compare_package_text"]
 TRUSTED = ["byte-wise strings.Compare = Lean String < on valid UTF-8", "a finite IEEE value is the dyadic rational decoded from its bits",
            "fmt %v digit generation for floats (model: exact expansion when <= 15 significant digits)"]
 RULE = ("exhaustive over a representative table: all 12 Go numeric types x {min, -1, 0, 1, max, fractions, 2^53 edges} plus strings "
